@@ -468,7 +468,7 @@ package dials
 //@   ensures err == nil ==> shaped(v, as(typ, "*dials.Type").t)
 //@ iface dials.Watcher.Watch(w, ctx, typ, args) (err)
 //@   flag record watch
-//@   modifies ?sourcewrap.Blank.t, ?sourcewrap.Blank.wa, ?sourcewrap.Blank.watchCtx
+//@   modifies ?sourcewrap.Blank.t@pay(w), ?sourcewrap.Blank.wa@pay(w), ?sourcewrap.Blank.watchCtx@pay(w)
 //@ iface dials.WatchArgs.ReportNewValue(wa, ctx, val) (err)
 //@   flag record waReport
 //@ iface dials.WatchArgs.BlockingReportNewValue(wa, ctx, val) (err)
